@@ -15,8 +15,8 @@
 (***************************************************************************)
 EXTENDS Grammar, TLC, Json
 
-CONSTANTS MaxNodes,   \* most nodes per tree
-          Family      \* index of the constructor family
+CONSTANTS MaxNodes,   \* most nodes per tree (the small family 4 gets one more)
+          Family      \* index of the constructor family, or 0 for all of them in one run
 
 Families == <<
   \* 1 arithmetic: every way of writing products, quotients, powers, signs
@@ -34,16 +34,20 @@ Arity(c) ==
     [] c \in {"if", "call2"} -> 3
     [] OTHER -> 2
 
-VARIABLES ps, need
-vars == <<ps, need>>
+VARIABLES fam, ps, need
+vars == <<fam, ps, need>>
 
-Init == ps = << >> /\ need = 1
+NodesFor(f) == IF f = 4 THEN MaxNodes + 1 ELSE MaxNodes
+
+Init == /\ fam \in (IF Family = 0 THEN 1..Len(Families) ELSE {Family})
+        /\ ps = << >> /\ need = 1
 Next == /\ need > 0
-        /\ \E i \in 1..Len(Families[Family]) :
-             LET c == Families[Family][i] IN
-               /\ Len(ps) + need + Arity(c) <= MaxNodes     \* the tree can still be completed
+        /\ \E i \in 1..Len(Families[fam]) :
+             LET c == Families[fam][i] IN
+               /\ Len(ps) + need + Arity(c) <= NodesFor(fam)     \* the tree can still be completed
                /\ ps' = Append(ps, c)
                /\ need' = need - 1 + Arity(c)
+        /\ UNCHANGED fam
 Spec == Init /\ [][Next]_vars
 
 \* decode the constructor sequence from position i: [t |-> style tree, n |-> next position]
@@ -89,7 +93,8 @@ RoundTripInv == need = 0 => LET st == StyleTree IN RoundTrip(st, FALSE) /\ Round
 
 EmitCase == need = 0 =>
   LET st == StyleTree IN
-  PrintT(<<"CASE", ToJson([m |-> IF Printable(st, FALSE) THEN TokSeqStr(Unparse(st, FALSE)) ELSE "-",
+  PrintT(<<"CASE", ToJson([fam |-> fam,
+                           m |-> IF Printable(st, FALSE) THEN TokSeqStr(Unparse(st, FALSE)) ELSE "-",
                            f |-> IF Printable(st, TRUE) THEN TokSeqStr(Unparse(st, TRUE)) ELSE "-",
                            e |-> Plain(st)])>>)
 =============================================================================
